@@ -24,3 +24,21 @@ Theorem C07_extract_pair_bound : forall have skip len ps1 ps2,
   (snd (extract_pair have skip len ps1 ps2) = true -> fst (extract_pair have skip len ps1 ps2) = len).
 Proof. exact extract_pair_bound. Qed.
 Print Assumptions C07_extract_pair_bound.
+
+(* ---- the real MSZIP port (Model/Mszip.v: zcall = mszipd_decompress, zframe = 'CK' search + inflate), tied to mszipd.c by the
+        decoder-level correspondence: no abstraction of the per-frame decoder here ---- *)
+From MSP Require Import Base.Src Model.Mszip Proofs.MszipClean Proofs.MszipAcct.
+(* the frame decoder never calls write, whatever the input *)
+Theorem C07_mszip_frame_decoder_only_reads : forall rule hint st s r s',
+  ideal rule hint (zframe st) s = (r, s') -> iout s' = iout s.
+Proof. intros rule hint st s r s' H. exact (proj1 (clean_run rule hint _ (cleanm_zframe st) _ _ _ H)). Qed.
+Print Assumptions C07_mszip_frame_decoder_only_reads.
+(* a call asked for n bytes: never more than n written (any outcome: OK, error status, end of input); exactly n when it says OK;
+   and the stream-state invariant the statement needs is re-established, so this holds for every call of every sequence from mszipd_init *)
+Theorem C07_mszip_port_accounting : forall rule hint n z i r i1, zo z <= zend z ->
+  ideal rule hint (zcall n z) i = (r, i1) ->
+  olen i <= olen i1 /\ olen i1 <= olen i + n /\
+  (forall fl z1, r = SVal (OK, fl, z1) -> olen i1 = olen i + n /\ zo z1 <= zend z1).
+Proof. exact zcall_acct. Qed.
+Print Assumptions C07_mszip_port_accounting.
+Example C07_mszip_init_state : zo zinit <= zend zinit. Proof. vm_compute. discriminate. Qed.
